@@ -9,6 +9,7 @@
 //! case tls <seed> <i>
 //! pair <T|O> <trusted|otherca|selfsigned|servercert|none> <lib|raw> -> registered|refused:<stage>
 //! pairt <T|O> trusted <lib|raw> other -> ...   (the client trusts the other CA instead)
+//! pairb <otherca|trusted> <lib|raw> -> ...    (server with a PEM bundle [other leaf, other CA] as --cert; client trusts the other CA)
 //! end
 use crate::net::*;
 use crate::net_srv::{first_reply, frame_of};
@@ -32,6 +33,25 @@ fn start_server_files(cert: &Path, key: &Path, ca: &Path) -> anyhow::Result<Sock
         let _ = server.listen().await;
     });
     Ok(addr)
+}
+
+fn pem(der: &[u8]) -> String {
+    const T: &[u8; 64] = b"ABCDEFGHIJKLMNOPQRSTUVWXYZabcdefghijklmnopqrstuvwxyz0123456789+/";
+    let mut b64 = String::new();
+    for chunk in der.chunks(3) {
+        let n = (chunk[0] as u32) << 16 | (*chunk.get(1).unwrap_or(&0) as u32) << 8 | *chunk.get(2).unwrap_or(&0) as u32;
+        b64.push(T[(n >> 18) as usize & 63] as char);
+        b64.push(T[(n >> 12) as usize & 63] as char);
+        b64.push(if chunk.len() > 1 { T[(n >> 6) as usize & 63] as char } else { '=' });
+        b64.push(if chunk.len() > 2 { T[n as usize & 63] as char } else { '=' });
+    }
+    let mut out = String::from("-----BEGIN CERTIFICATE-----\n");
+    for line in b64.as_bytes().chunks(64) {
+        out.push_str(std::str::from_utf8(line).unwrap());
+        out.push('\n');
+    }
+    out.push_str("-----END CERTIFICATE-----\n");
+    out
 }
 
 fn self_signed(dir: &Path) -> anyhow::Result<(PathBuf, PathBuf)> {
@@ -142,6 +162,22 @@ pub async fn run_case(seed: u64, i: u64, out: &mut String) {
             let _ = writeln!(out, "pairt {} trusted lib other -> {}", sname, r);
             let r = via_raw(addr, &ca_other, Some((der(&trusted.client("localhost.der")), der(&trusted.client("localhost.key.der")))), &format!("tls{}x{}", seed % 100_000, i), &format!("trustraw{}", k)).await;
             let _ = writeln!(out, "pairt {} trusted raw other -> {}", sname, r);
+        }
+        // a server whose --cert file is a PEM bundle: the other set's server certificate followed by
+        // the other CA; it still trusts only the trusted CA for clients.  Clients that trust the other
+        // CA get through the server's authentication; only the trusted client certificate may register
+        let bundle = dir.join("bundle.pem");
+        std::fs::write(&bundle, format!("{}{}", pem(&der(&other.server("localhost.der"))), pem(&der(&other.server("ca.der")))))?;
+        let srv_b = start_server_files(&bundle, &other.server("localhost.key.der"), &trusted.server("ca.der"))?;
+        for (cname, c, key) in [
+            ("otherca", other.client("localhost.der"), other.client("localhost.key.der")),
+            ("trusted", trusted.client("localhost.der"), trusted.client("localhost.key.der")),
+        ] {
+            k += 1;
+            let r = via_raw(srv_b, &ca_other, Some((der(&c), der(&key))), &format!("tls{}x{}", seed % 100_000, i), &format!("bundle{}", k)).await;
+            let _ = writeln!(out, "pairb {} raw -> {}", cname, r);
+            let r = via_lib(srv_b, &ca_other, &c, &key, &format!("/tls{}x{}/bundlel{}", seed % 100_000, i, k)).await;
+            let _ = writeln!(out, "pairb {} lib -> {}", cname, r);
         }
         Ok(())
     }
